@@ -278,15 +278,15 @@ Proof.
     destruct (amem req (invs s)) eqn:M; [intros [= <- <-]; apply trans_quiet; auto; reflexivity|].
     destruct (alookup reg (regs s)) as [d|]; [|intros [= <- <-]; apply trans_quiet; auto; reflexivity].
     set (k := nextk s). set (clos := r_details d && rp_on rp). set (det := if r_details d then Some (eff_details reg caller, clos) else None).
-    set (acc := OAccepted k req reg args caller rp (r_details d)).
+    set (acc := OAccepted k req reg (with_self d args) caller rp (r_details d)).
     assert (A1 : is_accepted req acc = true) by (cbn; apply N.eqb_refl).
     assert (A2 : forall r, is_terminal r acc = false) by reflexivity.
     assert (A3 : forall r, r <> req -> is_accepted r acc = false).
     { intros r Hn. cbn. apply N.eqb_neq. congruence. }
     assert (Main : forall s0 o0,
-      (let '(ob, r) := run_body classify s k {| c_req := req; c_reg := reg; c_args := args; c_det := det; c_clos := clos; c_st := CPending; c_gate := gate_of d |} b in
+      (let '(ob, r) := run_body classify s k {| c_req := req; c_reg := reg; c_args := with_self d args; c_det := det; c_clos := clos; c_st := CPending; c_gate := gate_of d |} b in
        let s1 := {| regs := regs s; invs := aset req k (invs s);
-                    calls := aset k {| c_req := req; c_reg := reg; c_args := args; c_det := det; c_clos := clos; c_st := CPending; c_gate := gate_of d |} (calls s);
+                    calls := aset k {| c_req := req; c_reg := reg; c_args := with_self d args; c_det := det; c_clos := clos; c_st := CPending; c_gate := gate_of d |} (calls s);
                     up := up s; joined := joined s; queue := queue s; nextk := k + 1 |} in
        match r with
        | None => (s1, acc :: ob)
@@ -495,13 +495,13 @@ Proof.
     destruct (amem req (invs s)) eqn:M; [intros [= <- <-]; apply lebal_quiet; reflexivity|].
     destruct (alookup reg (regs s)) as [d|]; [|intros [= <- <-]; apply lebal_quiet; reflexivity].
     set (k := nextk s). set (clos := r_details d && rp_on rp). set (det := if r_details d then Some (eff_details reg caller, clos) else None).
-    set (acc := OAccepted k req reg args caller rp (r_details d)).
+    set (acc := OAccepted k req reg (with_self d args) caller rp (r_details d)).
     assert (A1 : is_accepted req acc = true) by (cbn; apply N.eqb_refl).
     assert (A2 : forall r, is_terminal r acc = false) by reflexivity.
     assert (Main : forall s0 o0,
-      (let '(ob, r) := run_body classify s k {| c_req := req; c_reg := reg; c_args := args; c_det := det; c_clos := clos; c_st := CPending; c_gate := gate_of d |} b in
+      (let '(ob, r) := run_body classify s k {| c_req := req; c_reg := reg; c_args := with_self d args; c_det := det; c_clos := clos; c_st := CPending; c_gate := gate_of d |} b in
        let s1 := {| regs := regs s; invs := aset req k (invs s);
-                    calls := aset k {| c_req := req; c_reg := reg; c_args := args; c_det := det; c_clos := clos; c_st := CPending; c_gate := gate_of d |} (calls s);
+                    calls := aset k {| c_req := req; c_reg := reg; c_args := with_self d args; c_det := det; c_clos := clos; c_st := CPending; c_gate := gate_of d |} (calls s);
                     up := up s; joined := joined s; queue := queue s; nextk := k + 1 |} in
        match r with
        | None => (s1, acc :: ob)
@@ -686,8 +686,8 @@ Lemma args_fidelity classify ecls fl s req reg args caller rp b d :
   (fl = Tx \/ defers d = false) -> gate_of d = None ->
   exists s' rest,
     step classify ecls fl s (OInvocation req reg args caller rp b) =
-      (s', OAccepted (nextk s) req reg args caller rp (r_details d)
-           :: OCalled (nextk s) req reg args (if r_details d then Some (eff_details reg caller, r_details d && rp_on rp) else None) :: rest)
+      (s', OAccepted (nextk s) req reg (with_self d args) caller rp (r_details d)
+           :: OCalled (nextk s) req reg (with_self d args) (if r_details d then Some (eff_details reg caller, r_details d && rp_on rp) else None) :: rest)
     /\ nocalls rest.
 Proof.
   intros J M L F G. cbn [step]. rewrite J, M, L. cbn [negb].
@@ -708,10 +708,10 @@ Qed.
 Lemma args_fidelity_aio_coro classify ecls s req reg args caller rp b d :
   joined s = true -> amem req (invs s) = false -> alookup reg (regs s) = Some d -> defers d = true ->
   exists s', step classify ecls Aio s (OInvocation req reg args caller rp b) =
-      (s', [OAccepted (nextk s) req reg args caller rp (r_details d)])
+      (s', [OAccepted (nextk s) req reg (with_self d args) caller rp (r_details d)])
     /\ queue s' = queue s ++ [QStep (nextk s)]
     /\ alookup (nextk s) (calls s') =
-         Some {| c_req := req; c_reg := reg; c_args := args;
+         Some {| c_req := req; c_reg := reg; c_args := with_self d args;
                  c_det := if r_details d then Some (eff_details reg caller, r_details d && rp_on rp) else None;
                  c_clos := r_details d && rp_on rp; c_st := CFresh b false; c_gate := gate_of d |}.
 Proof.
@@ -931,21 +931,21 @@ Proof.
     destruct (amem req (invs s)); [intros [= <- <-]; apply Easy; [apply okout_raised|apply pres_refl]|].
     destruct (alookup reg (regs s)) as [d|]; [|intros [= <- <-]; apply Easy; [apply okout_raised|apply pres_refl]].
     set (k := nextk s). set (clos := r_details d && rp_on rp). set (det := if r_details d then Some (eff_details reg caller, clos) else None).
-    set (acc := OAccepted k req reg args caller rp (r_details d)).
+    set (acc := OAccepted k req reg (with_self d args) caller rp (r_details d)).
     set (seen1 := if rp_on rp && r_details d then req :: seen else seen).
     assert (Hs1 : clos = true -> In req seen1).
     { unfold clos, seen1. rewrite andb_comm. intros ->. now left. }
     assert (Hm : forall r0, In r0 seen -> In r0 seen1) by (intros r0 H; unfold seen1; destruct (rp_on rp && r_details d); [now right|exact H]).
     assert (Ent : forall cs s1, s1 = {| regs := regs s; invs := aset req k (invs s);
-                    calls := aset k {| c_req := req; c_reg := reg; c_args := args; c_det := det; c_clos := clos; c_st := cs; c_gate := gate_of d |} (calls s);
+                    calls := aset k {| c_req := req; c_reg := reg; c_args := with_self d args; c_det := det; c_clos := clos; c_st := cs; c_gate := gate_of d |} (calls s);
                     up := up s; joined := joined s; queue := queue s; nextk := k + 1 |} -> Inv s1 seen1).
     { intros cs s1 -> k' c' H C. cbn [calls] in H. destruct (N.eq_dec k' k) as [->|Hn].
       - rewrite alookup_aset_same in H. injection H as <-. cbn in C |- *. now apply Hs1.
       - rewrite alookup_aset_other in H by exact Hn. apply Hm. now apply (Hi k' c'). }
     assert (Main : forall s0 o0,
-      (let '(ob, r) := run_body classify s k {| c_req := req; c_reg := reg; c_args := args; c_det := det; c_clos := clos; c_st := CPending; c_gate := gate_of d |} b in
+      (let '(ob, r) := run_body classify s k {| c_req := req; c_reg := reg; c_args := with_self d args; c_det := det; c_clos := clos; c_st := CPending; c_gate := gate_of d |} b in
        let s1 := {| regs := regs s; invs := aset req k (invs s);
-                    calls := aset k {| c_req := req; c_reg := reg; c_args := args; c_det := det; c_clos := clos; c_st := CPending; c_gate := gate_of d |} (calls s);
+                    calls := aset k {| c_req := req; c_reg := reg; c_args := with_self d args; c_det := det; c_clos := clos; c_st := CPending; c_gate := gate_of d |} (calls s);
                     up := up s; joined := joined s; queue := queue s; nextk := k + 1 |} in
        match r with
        | None => (s1, acc :: ob)
@@ -1078,8 +1078,8 @@ Lemma progress_sync_before_terminal classify ecls fl s req reg args caller rp b 
   (fl = Tx \/ defers d = false) -> gate_of d = None ->
   exists s' body cb,
     step classify ecls fl s (OInvocation req reg args caller rp b) =
-      (s', OAccepted (nextk s) req reg args caller rp (r_details d)
-           :: OCalled (nextk s) req reg args (if r_details d then Some (eff_details reg caller, r_details d && rp_on rp) else None) :: body ++ cb)
+      (s', OAccepted (nextk s) req reg (with_self d args) caller rp (r_details d)
+           :: OCalled (nextk s) req reg (with_self d args) (if r_details d then Some (eff_details reg caller, r_details d && rp_on rp) else None) :: body ++ cb)
     /\ quiet body /\ noprogs cb.
 Proof.
   intros J M L F G. cbn [step]. rewrite J, M, L. cbn [negb].
@@ -1111,8 +1111,8 @@ Proof. intros L C. cbn [step]. rewrite L, C. destruct (c_st c); destruct (c_gate
 (* INVOCATION details of the witnesses: caller 7 disclosed, nothing else; what CallDetails then shows for registration 100 *)
 Definition C7 : idet := (Some 7, None, None).
 Definition D7 : cdet := (Some 7, None, 100).
-Definition d_plain := {| r_details := true; r_coro := false; r_check := false; r_sig := SigOk |}.
-Definition d_coro := {| r_details := true; r_coro := true; r_check := false; r_sig := SigOk |}.
+Definition d_plain := {| r_details := true; r_coro := false; r_check := false; r_sig := SigOk; r_obj := None |}.
+Definition d_coro := {| r_details := true; r_coro := true; r_check := false; r_sig := SigOk; r_obj := None |}.
 Definition V (i : N) := PVal i false false.
 
 (* progress after the terminal reply: INTERRUPT answered with ERROR, then the endpoint reports progress *)
@@ -1131,7 +1131,7 @@ Proof. intros []; (split; [reflexivity|]); (split; [vm_compute; reflexivity|]); 
 
 (* the hypothesis classify_ok of one_terminal is needed: the two send() implementations as they were *)
 Definition h_unser_result : list op :=
-  [ORegister 100 {| r_details := false; r_coro := false; r_check := false; r_sig := SigOk |};
+  [ORegister 100 {| r_details := false; r_coro := false; r_check := false; r_sig := SigOk; r_obj := None |};
    OInvocation 1 100 (V 0) C7 (None) {| b_pre := []; b_fin := FReturn (RPlain (PVal 1 true false)) |}; OTurn].
 Lemma leaky_unser_loses_reply ser_exn ecls :
   stays_up h_unser_result /\
@@ -1140,7 +1140,7 @@ Lemma leaky_unser_loses_reply ser_exn ecls :
     /\ active 1 s = 0%nat.
 Proof. split; [reflexivity|]. eexists. split; reflexivity. Qed.
 Definition h_big_error : list op :=
-  [ORegister 100 {| r_details := false; r_coro := false; r_check := false; r_sig := SigOk |};
+  [ORegister 100 {| r_details := false; r_coro := false; r_check := false; r_sig := SigOk; r_obj := None |};
    OInvocation 1 100 (V 0) C7 (None) {| b_pre := []; b_fin := FRaise (EApp 3 (PVal 1 false true)) |}; OTurn].
 Lemma leaky_big_loses_reply ecls :
   stays_up h_big_error /\
@@ -1178,10 +1178,10 @@ Definition h_coro_cancel : list op :=
 Lemma args_fidelity_aio_coroutine : forall classify ecls s req reg args caller rp b d,
   joined s = true -> amem req (invs s) = false -> alookup reg (regs s) = Some d -> defers d = true ->
   (exists s', step classify ecls Aio s (OInvocation req reg args caller rp b) =
-      (s', [OAccepted (nextk s) req reg args caller rp (r_details d)])
+      (s', [OAccepted (nextk s) req reg (with_self d args) caller rp (r_details d)])
     /\ queue s' = queue s ++ [QStep (nextk s)]
     /\ alookup (nextk s) (calls s') =
-         Some {| c_req := req; c_reg := reg; c_args := args;
+         Some {| c_req := req; c_reg := reg; c_args := with_self d args;
                  c_det := if r_details d then Some (eff_details reg caller, r_details d && rp_on rp) else None;
                  c_clos := r_details d && rp_on rp; c_st := CFresh b false; c_gate := gate_of d |})
   /\ (forall s1 k c b1, alookup k (calls s1) = Some c -> c_st c = CFresh b1 false -> c_gate c = None ->
@@ -1227,32 +1227,39 @@ Proof.
   intros H. repeat (apply andb_true_iff in H as [H ?]).
   apply optN_eqb_eq in H. apply optN_eqb_eq in H2. apply N.eqb_eq in H1. apply eqb_prop in H0. now subst.
 Qed.
+Fixpoint pl_eqb (p p' : payload) : bool :=
+  match p, p' with
+  | PVal i u b0, PVal i' u' b' => (i =? i') && eqb u u' && eqb b0 b'
+  | PNone, PNone | PEmpty, PEmpty | PText, PText => true
+  | PFallback k, PFallback k' => match k, k' with
+                                 | FbSuccessSer, FbSuccessSer | FbErrorSer, FbErrorSer | FbExceeded, FbExceeded => true
+                                 | _, _ => false end
+  | PSelf o q, PSelf o' q' => (o =? o') && pl_eqb q q'
+  | _, _ => false
+  end.
+Lemma pl_eqb_refl p : pl_eqb p p = true.
+Proof. induction p as [i u b| | | |k|o q IH]; cbn; rewrite ?N.eqb_refl, ?eqb_reflx; cbn; try (destruct k); auto. Qed.
+Lemma pl_eqb_eq p : forall p', pl_eqb p p' = true -> p = p'.
+Proof.
+  induction p as [i u b| | | |k|o q IH]; intros [i' u' b'| | | |k'|o' q']; cbn; try discriminate; try reflexivity; intros H.
+  - repeat (apply andb_true_iff in H as [H ?]). apply N.eqb_eq in H. apply eqb_prop in H0. apply eqb_prop in H1. now subst.
+  - destruct k, k'; try discriminate; reflexivity.
+  - apply andb_true_iff in H as [A B]. apply N.eqb_eq in A. apply IH in B. now subst.
+Qed.
 Definition entry_eqb (a b : acc_entry) : bool :=
   let '(r, g, p, d) := a in let '(r', g', p', d') := b in
-  (r =? r') && (g =? g') &&
-  (match p, p' with
-   | PVal i u b0, PVal i' u' b' => (i =? i') && eqb u u' && eqb b0 b'
-   | PNone, PNone | PEmpty, PEmpty | PText, PText => true
-   | PFallback k, PFallback k' => match k, k' with
-                                  | FbSuccessSer, FbSuccessSer | FbErrorSer, FbErrorSer | FbExceeded, FbExceeded => true
-                                  | _, _ => false end
-   | _, _ => false end) &&
-  cdetb_eqb d d'.
+  (r =? r') && (g =? g') && pl_eqb p p' && cdetb_eqb d d'.
 Lemma entry_eqb_refl a : entry_eqb a a = true.
 Proof.
   destruct a as [[[r g] p] d]. cbn. rewrite !N.eqb_refl. cbn.
-  rewrite cdetb_eqb_refl.
-  destruct p as [i u b| | | |k]; cbn; rewrite ?N.eqb_refl, ?eqb_reflx; cbn; try (destruct k); reflexivity.
+  now rewrite cdetb_eqb_refl, pl_eqb_refl.
 Qed.
 Lemma entry_eqb_eq a b : entry_eqb a b = true -> a = b.
 Proof.
   destruct a as [[[r g] p] d], b as [[[r' g'] p'] d']. cbn. intros H.
   repeat (apply andb_true_iff in H as [H ?]).
   apply N.eqb_eq in H. apply N.eqb_eq in H2. subst.
-  assert (p = p').
-  { destruct p as [i u b| | | |k], p' as [i' u' b'| | | |k']; try discriminate; try reflexivity.
-    - repeat (apply andb_true_iff in H1 as [H1 ?]). apply N.eqb_eq in H1. apply eqb_prop in H. apply eqb_prop in H2. now subst.
-    - destruct k, k'; try discriminate; reflexivity. }
+  assert (p = p') by now apply pl_eqb_eq.
   assert (d = d') by now apply cdetb_eqb_eq.
   now subst.
 Qed.
@@ -1426,25 +1433,25 @@ Proof.
     destruct (amem req (invs s)); [intros [= <- <-]; apply Inert; [reflexivity|apply pres_refl]|].
     destruct (alookup reg (regs s)) as [d|]; [|intros [= <- <-]; apply Inert; [reflexivity|apply pres_refl]].
     set (k := nextk s). set (clos := r_details d && rp_on rp). set (det := if r_details d then Some (eff_details reg caller, clos) else None).
-    set (tab1 := (k, (req, reg, args, det_of reg caller rp (r_details d))) :: tab).
+    set (tab1 := (k, (req, reg, with_self d args, det_of reg caller rp (r_details d))) :: tab).
     assert (Hd : det_of reg caller rp (r_details d) = det) by reflexivity.
-    assert (Ht : alookup k tab1 = Some (req, reg, args, det)).
+    assert (Ht : alookup k tab1 = Some (req, reg, with_self d args, det)).
     { unfold tab1. cbn. rewrite N.eqb_refl, Hd. reflexivity. }
     assert (Ent : forall cs s1, s1 = {| regs := regs s; invs := aset req k (invs s);
-                    calls := aset k {| c_req := req; c_reg := reg; c_args := args; c_det := det; c_clos := clos; c_st := cs; c_gate := gate_of d |} (calls s);
+                    calls := aset k {| c_req := req; c_reg := reg; c_args := with_self d args; c_det := det; c_clos := clos; c_st := cs; c_gate := gate_of d |} (calls s);
                     up := up s; joined := joined s; queue := queue s; nextk := k + 1 |} -> InvC s1 tab1).
     { intros cs s1 -> k' c' H. cbn [calls] in H. destruct (N.eq_dec k' k) as [->|Hn].
       - rewrite alookup_aset_same in H. injection H as <-. exact Ht.
       - rewrite alookup_aset_other in H by exact Hn. unfold tab1. cbn.
         destruct (k' =? k) eqn:E; [apply N.eqb_eq in E; congruence|]. now apply Hi. }
     assert (Main : forall s0 o0,
-      (let '(ob, r) := run_body classify s k {| c_req := req; c_reg := reg; c_args := args; c_det := det; c_clos := clos; c_st := CPending; c_gate := gate_of d |} b in
+      (let '(ob, r) := run_body classify s k {| c_req := req; c_reg := reg; c_args := with_self d args; c_det := det; c_clos := clos; c_st := CPending; c_gate := gate_of d |} b in
        let s1 := {| regs := regs s; invs := aset req k (invs s);
-                    calls := aset k {| c_req := req; c_reg := reg; c_args := args; c_det := det; c_clos := clos; c_st := CPending; c_gate := gate_of d |} (calls s);
+                    calls := aset k {| c_req := req; c_reg := reg; c_args := with_self d args; c_det := det; c_clos := clos; c_st := CPending; c_gate := gate_of d |} (calls s);
                     up := up s; joined := joined s; queue := queue s; nextk := k + 1 |} in
        match r with
-       | None => (s1, OAccepted k req reg args caller rp (r_details d) :: ob)
-       | Some r => let '(s2, o2) := complete classify ecls fl s1 k r in (s2, OAccepted k req reg args caller rp (r_details d) :: ob ++ o2)
+       | None => (s1, OAccepted k req reg (with_self d args) caller rp (r_details d) :: ob)
+       | Some r => let '(s2, o2) := complete classify ecls fl s1 k r in (s2, OAccepted k req reg (with_self d args) caller rp (r_details d) :: ob ++ o2)
        end) = (s0, o0) -> call_ok tab o0 = true /\ InvC s0 (tab_after tab o0)).
     { intros s0 o0.
       destruct (run_body classify s k _ b) as [ob [r|]] eqn:B;
@@ -1554,7 +1561,7 @@ Lemma gated_call_rejected_tx classify ecls s req reg args caller rp b d e :
   classify_ok classify -> up s = true -> joined s = true -> amem req (invs s) = false ->
   alookup reg (regs s) = Some d -> gate_of d = Some e ->
   exists s', step classify ecls Tx s (OInvocation req reg args caller rp b) =
-      (s', [OAccepted (nextk s) req reg args caller rp (r_details d); OSent (MError req (uri_of ecls e) PText)])
+      (s', [OAccepted (nextk s) req reg (with_self d args) caller rp (r_details d); OSent (MError req (uri_of ecls e) PText)])
     /\ amem req (invs s') = false.
 Proof.
   intros Hok U J M L G. cbn [step]. rewrite J, M, L. cbn [negb]. unfold run_body. cbn [c_gate]. rewrite G.
@@ -1567,9 +1574,9 @@ Qed.
 
 (* check_types: well-typed call, ill-typed call (type hint), unbindable call *)
 Definition h_check_types : list op :=
-  [ORegister 100 {| r_details := true; r_coro := false; r_check := true; r_sig := SigOk |};
-   ORegister 101 {| r_details := false; r_coro := false; r_check := true; r_sig := SigIllTyped |};
-   ORegister 102 {| r_details := false; r_coro := false; r_check := false; r_sig := SigShort |};
+  [ORegister 100 {| r_details := true; r_coro := false; r_check := true; r_sig := SigOk; r_obj := None |};
+   ORegister 101 {| r_details := false; r_coro := false; r_check := true; r_sig := SigIllTyped; r_obj := None |};
+   ORegister 102 {| r_details := false; r_coro := false; r_check := false; r_sig := SigShort; r_obj := None |};
    OInvocation 1 100 (V 11) C7 (None) {| b_pre := []; b_fin := FReturn (RPlain (V 21)) |}; OTurn;
    OInvocation 2 101 (V 12) C7 (None) {| b_pre := []; b_fin := FReturn (RPlain (V 22)) |}; OTurn;
    OInvocation 3 102 (V 13) C7 (None) {| b_pre := []; b_fin := FReturn (RPlain (V 23)) |}; OTurn].
@@ -1580,3 +1587,25 @@ Definition h_tristate : list op :=
    OInvocation 1 100 (V 11) (None, None, None) None {| b_pre := [V 1]; b_fin := FReturn (RPlain (V 21)) |}; OTurn;
    OInvocation 2 100 (V 12) (Some 7, Some 0, None) (Some false) {| b_pre := [V 1]; b_fin := FReturn (RPlain (V 22)) |}; OTurn;
    OInvocation 3 100 (V 13) (Some 7, Some 5, Some 900) (Some true) {| b_pre := [V 1]; b_fin := FReturn (RPlain (V 23)) |}; OTurn].
+
+(* ================= registration of an object's decorated methods ================= *)
+Lemma reg_object_method obj co ms reg own coro :
+  In (reg, own, coro) ms ->
+  In (ORegister reg {| r_details := resolve_details co own; r_coro := coro; r_check := false; r_sig := SigOk;
+                       r_obj := Some obj |}) (reg_object obj co ms).
+Proof. intros H. unfold reg_object. apply in_map_iff. exists (reg, own, coro). split; [reflexivity|exact H]. Qed.
+Lemma reg_object_shape obj co ms :
+  map (fun o => match o with ORegister reg _ => reg | _ => 0 end) (reg_object obj co ms) = map (fun m => fst (fst m)) ms.
+Proof. unfold reg_object. rewrite map_map. apply map_ext. intros [[reg own] coro]. reflexivity. Qed.
+Lemma resolve_details_spec co own :
+  resolve_details co own = match own with Some b => b | None => match co with Some b => b | None => false end end.
+Proof. reflexivity. Qed.
+
+(* object 9: method 100 asks for details itself, method 101 has no options, method 102 has options without details;
+   call-level options ask for details.  Each method is entered with the instance first and with details iff ITS
+   effective options say so *)
+Definition h_object : list op :=
+  reg_object 9 (Some true) [(100, Some true, false); (101, None, false); (102, Some false, false)] ++
+  [OInvocation 1 100 (V 11) C7 None {| b_pre := []; b_fin := FReturn (RPlain (V 21)) |}; OTurn;
+   OInvocation 2 101 (V 12) C7 None {| b_pre := []; b_fin := FReturn (RPlain (V 22)) |}; OTurn;
+   OInvocation 3 102 (V 13) C7 None {| b_pre := []; b_fin := FReturn (RPlain (V 23)) |}; OTurn].
